@@ -97,14 +97,25 @@ def _rebound(stmts_):
         for n in ast.walk(st):
             if isinstance(n, ast.Name) and isinstance(n.ctx, (ast.Store, ast.Del)):
                 names.add(n.id)
-            elif isinstance(n, ast.Call):
+            elif isinstance(n, ast.alias) and n.name != "*":
+                names.add((n.asname or n.name).split(".")[0])        # import .. as name
+            elif isinstance(n, (ast.FunctionDef, ast.AsyncFunctionDef, ast.ClassDef)):
+                names.add(n.name)
+                names.update(x for g in ast.walk(n) if isinstance(g, (ast.Nonlocal, ast.Global)) for x in g.names)
+            elif isinstance(n, ast.ExceptHandler) and n.name:
+                names.add(n.name)
+            if isinstance(n, ast.Call):
                 # lowered Cython `f(&x)` is `f(+x)`: the callee may write x; a pointer variable handed on (`memset(p, ..)`) is
                 # reported as stored-into, the caller maps it to what it may point at
-                for a in n.args:
-                    if isinstance(a, ast.UnaryOp) and isinstance(a.op, ast.UAdd) and isinstance(a.operand, ast.Name):
-                        names.add(a.operand.id)
-                    elif isinstance(a, ast.Name):
+                for a in list(n.args) + [k.value for k in n.keywords]:
+                    if isinstance(a, ast.Name):
                         pointer_args.add(a.id)
+                    # the address of a variable anywhere in an argument (`&x if c else NULL`, `cython.address(x)`)
+                    for y in ast.walk(a):
+                        if isinstance(y, ast.UnaryOp) and isinstance(y.op, ast.UAdd) and isinstance(y.operand, ast.Name):
+                            names.add(y.operand.id)
+                        elif isinstance(y, ast.Call) and (ast.unparse(y.func) in ("cython.address", "address")) and y.args and isinstance(y.args[0], ast.Name):
+                            names.add(y.args[0].id)
             elif isinstance(n, (ast.Subscript, ast.Attribute)) and isinstance(n.ctx, (ast.Store, ast.Del)):
                 b = n
                 while isinstance(b, (ast.Subscript, ast.Attribute)):
@@ -120,6 +131,9 @@ def _mentions(fact, names, stored):
         if isinstance(n, ast.Attribute) and n.attr == "shape" and isinstance(n.value, ast.Name):
             shape_only.add(id(n.value))
     for n in ast.walk(fact):
+        if isinstance(n, ast.Attribute) and isinstance(n.value, ast.Name) and n.value.id in ("self", "cls") \
+                and (f"{n.value.id}.{n.attr}" in stored or f"{n.value.id}.{n.attr}" in names):
+            return True          # a field of the instance (pseudo-name of the alias model) was written
         if isinstance(n, ast.Name):
             if n.id in names:
                 return True
@@ -181,6 +195,10 @@ def facts_at(func, node):
             names |= stored & addr_taken
         if names or stored:
             facts[:] = [f for f in facts if not _mentions(f, names, stored)]
+        # a fact about what a call answered (`self.get_app_state() == ..`, `time.time() - t0 < limit`) does not outlive a statement
+        # that calls anything which is not known to only read
+        if any(isinstance(x, ast.Call) and not _alias.reads_only(x) for st_ in stmts_ for x in ast.walk(st_)):
+            facts[:] = [f for f in facts if not any(isinstance(x, ast.Call) and not _alias.reads_only(x) for x in ast.walk(f))]
 
     def add_test_facts(test, negated=False):
         """the conjuncts of a test (of its negation) that still hold when the test has been evaluated completely: a conjunct is
@@ -226,7 +244,17 @@ def facts_at(func, node):
                 if isinstance(st, (ast.For, ast.While, ast.AsyncFor)):
                     kill([st])      # a later iteration sees what any part of the loop rebinds
                     if isinstance(st, ast.For) and any(contains(b) for b in st.body):
+                        # the bounds were evaluated once, before the loop: a bound whose operands the loop body rebinds or writes
+                        # (`cells = cells[:1]` with `range(.., cells.shape[0])`) says nothing about them any more
+                        n_before = len(facts)
                         facts.extend(_range_facts(st))
+                        tnames = {t.id for t in ast.walk(st.target) if isinstance(t, ast.Name)}
+                        names_, stored_ = _rebound(list(st.body) + list(st.orelse))
+                        for st_ in list(st.body) + list(st.orelse):
+                            stored_ |= _inplace_written(st_, grp)
+                        stored_ = _alias.closure_of(stored_, grp) if stored_ else stored_
+                        names_ = (names_ | (stored_ & addr_taken)) - tnames
+                        facts[n_before:] = [f for f in facts[n_before:] if not _mentions(f, names_, stored_)]
                     if isinstance(st, ast.While) and any(contains(b) for b in st.body):
                         add_test_facts(st.test)          # the test held when this iteration began
                 elif isinstance(st, (ast.With, ast.AsyncWith)):
@@ -234,11 +262,18 @@ def facts_at(func, node):
                 for fld in ("body", "orelse", "finalbody"):
                     sub = getattr(st, fld, None)
                     if isinstance(sub, list) and any(contains(b) for b in sub):
+                        if isinstance(st, ast.Try) and fld in ("orelse", "finalbody"):
+                            kill(list(st.body))          # the body ran (else), or any part of it and of the handlers (finally)
+                            if fld == "finalbody":
+                                kill([b for h in st.handlers for b in h.body] + list(st.orelse))
                         descend(sub)
                         return
                 if isinstance(st, ast.Try):
                     for h in st.handlers:
                         if any(contains(b) for b in h.body):
+                            kill(list(st.body))          # any prefix of the body may have run before the exception
+                            if h.name:
+                                kill([ast.Expr(value=ast.Name(id=h.name, ctx=ast.Store()))])
                             descend(h.body)
                             return
                 return
